@@ -9,6 +9,8 @@ commands
         -> {"request":{...}, "result": {...}|null, "exc":[cls,msg]|null, "data": executed data, "obs": {...},
             "corruptions": [...]}
   {"cmd":"eval","code": "..."}  -> {"value": repr}   (small probes by property modules; code sees `pkg`, `mods`)
+  {"cmd":"call_args","method":py_name,"args":{kw: encoded},"intended":{var: json}}   (C03/C07)
+        -> {"request", "exc", "sent": {"coerced"|"errors","rec"}, "intended": {...}, "log_construct", "log_call"}
 
 The reference executor is graphql-core `execute_sync` on the query text the client SENT, with resolvers scripted
 by a plan: {"k": int (rotates runtime types at abstract positions), "null": float prob, "lens": [list lengths],
@@ -120,7 +122,7 @@ def make_executor(sdl):
             walk(d.selection_set, False)
         return keys
 
-    def run(query, variables, operation_name, plan):
+    def run(query, variables, operation_name, plan, rec=None):
         from graphql import execute_sync, parse
 
         types = {}
@@ -129,6 +131,8 @@ def make_executor(sdl):
 
         def resolver(source, info, **args):
             pl = path_list(info.path)
+            if rec is not None and args:
+                rec.append(["/".join(map(str, pl)), _jsonable(args)])
             types[json.dumps(pl)] = {
                 "type": str(info.return_type),
                 "cond": pl[-1] in ckeys,
@@ -507,6 +511,112 @@ def cmd_call(req):
     return out
 
 
+# ----------------------------------------------------------------------------- arguments (C03 / C07)
+def _jsonable(v):
+    """Coerced GraphQL values / resolver arguments -> JSON (enum values are their names under build_schema)."""
+    if isinstance(v, dict):
+        return {k: _jsonable(x) for k, x in v.items()}
+    if isinstance(v, (list, tuple)):
+        return [_jsonable(x) for x in v]
+    if isinstance(v, enum.Enum):
+        return v.value
+    if isinstance(v, (str, int, float, bool)) or v is None:
+        return v
+    return {"$repr": repr(v)}
+
+
+def _scalar_log(clear=True):
+    mod = sys.modules.get("vscal")
+    if mod is None:
+        return None
+    out = list(mod.LOG)
+    if clear:
+        mod.LOG.clear()
+    return out
+
+
+def cmd_call_args(req):
+    """Call a generated method; capture the request; coerce the SENT variables with graphql-core and execute the
+    SENT document with recording resolvers; do the same with the caller's INTENDED variables (GraphQL JSON form,
+    supplied by the harness) so the two can be compared.  Also returns the instrumented scalar call log."""
+    import httpx
+    from graphql import OperationDefinitionNode, execute_sync, parse
+    from graphql.execution.values import get_variable_values
+
+    schema = STATE["schema"]
+    captured = {}
+    _scalar_log()
+
+    def record_run(query, variables, opname):
+        doc = parse(query)
+        rec = []
+        op = [d for d in doc.definitions if isinstance(d, OperationDefinitionNode)][0]
+        cv = get_variable_values(schema, op.variable_definitions, variables or {})
+        if isinstance(cv, list):
+            return {"errors": [str(e.message)[:300] for e in cv], "rec": None}
+        try:
+            res, _types = STATE["run"](query, variables, opname, req.get("plan") or {"null": 0.0, "lens": [1]}, rec=rec)
+        except BaseException as exc:  # noqa  (e.g. the sent document lacks a fragment definition: C02's subject)
+            return {"coerced": _jsonable(cv), "rec": None, "exec_exc": [type(exc).__name__, str(exc)[:300]]}
+        return {"coerced": _jsonable(cv), "rec": rec, "exec_errors": [str(e.message)[:200] for e in (res.errors or [])][:3]}
+
+    def handler(request: httpx.Request):
+        body = request.content
+        captured["content_type"] = request.headers.get("content-type")
+        try:
+            payload = json.loads(body)
+            captured.update(query=payload.get("query"), operationName=payload.get("operationName"),
+                            variables=payload.get("variables"), has_variables="variables" in payload)
+        except Exception:
+            captured["raw"] = body[:2000].decode("latin-1")
+        return httpx.Response(200, json=req.get("response_body") or {"data": None, "errors": [{"message": "stop"}]})
+
+    out = {"request": captured, "exc": None}
+    try:
+        args = {k: decode(v) for k, v in (req.get("args") or {}).items()}
+    except BaseException as exc:  # noqa
+        out["exc"] = ["args:" + type(exc).__name__, str(exc)[:1500]]
+        return out
+    out["log_construct"] = _scalar_log()
+    client = make_client(handler)
+    fn = getattr(client, req["method"])
+    try:
+        r = fn(**args)
+        if inspect.iscoroutine(r):
+            r = asyncio.run(r)
+        if req.get("dump_result"):
+            out["result_repr"] = _result_repr(r)
+    except BaseException as exc:  # noqa
+        out["exc"] = [type(exc).__name__, str(exc)[:600]]
+    out["log_call"] = _scalar_log()
+    if captured.get("query") is not None:
+        try:
+            out["sent"] = record_run(captured["query"], captured.get("variables"), captured.get("operationName"))
+            if "intended" in req:
+                out["intended"] = record_run(captured["query"], req["intended"], captured.get("operationName"))
+        except BaseException as exc:  # noqa
+            out["reference_exc"] = [type(exc).__name__, str(exc)[:600], traceback.format_exc()[-800:]]
+    return out
+
+
+def _result_repr(r):
+    """Result model -> JSON-ish tree keeping python values of leaves (repr for non JSON-native ones)."""
+    from pydantic import BaseModel
+
+    if isinstance(r, BaseModel):
+        return {"$cls": type(r).__name__, "fields": {k: _result_repr(getattr(r, k)) for k in type(r).model_fields
+                                                      if k in r.model_fields_set}}
+    if isinstance(r, list):
+        return [_result_repr(x) for x in r]
+    if isinstance(r, enum.Enum):
+        return r.value
+    if isinstance(r, dict):
+        return {"$dict": {k: _result_repr(v) for k, v in r.items()}}
+    if isinstance(r, (str, int, float, bool)) or r is None:
+        return r
+    return {"$repr": repr(r)}
+
+
 def cmd_eval(req):
     env = {"pkg": STATE.get("pkg"), "mods": STATE.get("mods"), "STATE": STATE}
     try:
@@ -528,7 +638,7 @@ def main():
             continue
         req = json.loads(line)
         try:
-            res = {"load": cmd_load, "call": cmd_call, "eval": cmd_eval}[req["cmd"]](req)
+            res = {"load": cmd_load, "call": cmd_call, "eval": cmd_eval, "call_args": cmd_call_args}[req["cmd"]](req)
         except BaseException as exc:  # noqa
             res = {"ok": False, "exc": ["driver." + type(exc).__name__, str(exc)[:1500]], "tb": traceback.format_exc()[-3000:]}
         real.write(json.dumps(res, default=str) + "\n")
